@@ -215,7 +215,7 @@ fn case_strategy() -> proptest::strategy::BoxedStrategy<EncCase> {
 }
 
 pub fn run_c17(cx: &Cx) -> PropResult {
-    let per_shard = cx.n(5_000, 200_000);
+    let per_shard = cx.n(40_000, 1_000_000);
     let acc = parallel(cx, &|shard, acc| {
         if char_sweep(cx, shard, acc) {
             return;
